@@ -16,7 +16,6 @@ K_LVIN = 'outline-loopvar-intent-in'
 K_LIVE = 'outline-local-live'
 K_OUT = 'outline-out-maybe-undefined'
 K_EXT = 'extract-keyword-call-external'
-K_NOCONT = 'extract-no-contains-crash'
 CLASS_ORDER = [K_CALL, K_OVR, K_PRINT, K_SHAPE, K_LVIN, K_LIVE, K_OUT]
 
 
@@ -540,10 +539,11 @@ def case_of(req):
 
 # ---------------------------------------------------------------- extraction of internal procedures (text level)
 
-def extract_source(rng, region=None):
+def extract_source(rng, region=None, plain=False):
     """a host routine with one internal subroutine that uses host-associated variables, plus the hand-inlined FIR equivalent
     (the oracle's reference).  `region`: None | 'call' (a `!$loki outline` region of the host contains a call to the internal
-    procedure) | 'nocall' (a region elsewhere in the host).  Every occurrence of a variable / procedure name in the host text
+    procedure) | 'nocall' (a region elsewhere in the host); `plain`: the file / module also has a routine WITHOUT a
+    CONTAINS section (before or after the host).  Every occurrence of a variable / procedure name in the host text
     is respelled (Fortran is case-insensitive): style 'upper-body' = declarations lower case, internal procedure body upper
     case (legacy style); 'mixed' = every occurrence upper or lower at random; 'lower'.  Returns (fortran text, reference)."""
     n_sym = rng.random() < 0.5
@@ -594,6 +594,9 @@ def extract_source(rng, region=None):
         inner_body = recase_text('\n'.join(inner_body), names, crng).split('\n')
     lines = head + body + ['contains'] + inner_head + inner_body + ['  end subroutine inner', 'end subroutine kernel']
     src = '\n'.join(lines) + '\n'
+    if plain:
+        extra = 'subroutine plain(x)\n  implicit none\n  integer, intent(inout) :: x\n  x = x + 1\nend subroutine plain\n'
+        src = extra + src if rng.random() < 0.5 else src + extra
     # reference: the internal procedure inlined by hand (shadowed local renamed), region markers dropped
     ref_inner = [x.replace('t = ', 't_in = ').replace('+ t', '+ t_in') if shadow else x for x in inner]
     ref = ['subroutine kernel(n, a, k, o, y)', '  implicit none', '  integer, intent(in) :: n',
@@ -627,12 +630,6 @@ def real_extract(src, form, flags='extract'):
     except Exception as e:
         raise TransformError(f'{type(e).__name__}: {str(e)[:120]}') from e
     return sf, text
-
-
-def known_no_contains(src):
-    """Lean-free class predicate `extract-no-contains-crash`: a procedure handed to extract_internal_procedures (= every
-    top-level routine of the file / module) has no CONTAINS section"""
-    return any(r.contains is None for r in fir.parse_fortran(src).subroutines)
 
 
 def top_routines(sf, form):
@@ -732,7 +729,7 @@ class C33(Prop):
                          'oracle: host with internal procedure vs extracted procedures']
 
     def classes(self):
-        return CLASS_ORDER + [K_EXT, K_NOCONT]
+        return CLASS_ORDER + [K_EXT]
 
     # ---- generation
     def gen(self, rng, tier):
@@ -759,7 +756,7 @@ class C33(Prop):
                 ('mod', 'extract', 'call'), ('file', 'extract', None), ('mod', 'both', 'call'), ('file', 'both', 'nocall')]
         for j in range(n_ext):
             form, flags, region = plan[j % len(plan)]
-            src, ref = extract_source(rng, region)
+            src, ref = extract_source(rng, region, plain=j % 3 == 1)
             yield Case([A('extract'), src, [ref], A(form), A(flags)], stream='extract')
 
     def shrink_candidates(self, req):
@@ -881,8 +878,7 @@ class C33(Prop):
         try:
             sf, text = real_extract(src, form, flags)
         except TransformError as e:
-            known = flags != 'outline' and known_no_contains(src) and 'AttributeError' in str(e)
-            return [Failure(f'extract[{form},{flags}]: transformation raised {str(e)[:140]}', K_NOCONT if known else None)]
+            return [Failure(f'extract[{form},{flags}]: transformation raised {str(e)[:140]}', None)]
         err = fir.gfortran_syntax_check(text)
         if err:
             # Lean: KnownExtractExternal — keyword call to an external procedure (free-file form with extraction)
@@ -895,14 +891,25 @@ class C33(Prop):
         if probs:
             return fails + [Failure(f'extract[{form},{flags}]: inconsistent result: ' + '; '.join(probs)[:300], None)]
         try:
+            # second application of the real entry point with extract_internals on: for flags 'outline' it extracts the
+            # internal procedure (the outlined routines have no CONTAINS section), otherwise it must be a no-op
+            # (formerly class extract-no-contains-crash, repaired: a routine without CONTAINS is left alone)
+            from loki import fgen
+            from loki.transformations.extract import ExtractTransformation
+            t = ExtractTransformation(extract_internals=True, outline_regions=False)
+            try:
+                if form == 'mod':
+                    t.transform_module(sf['m'])
+                else:
+                    t.transform_file(sf)
+                text2 = fgen(sf.ir)
+            except Exception as e:
+                return fails + [Failure(f'extract[{form},{flags}]: applying ExtractTransformation(extract_internals=True) to the '
+                                        f'result raised {type(e).__name__}: {str(e)[:120]}', None)]
+            if flags != 'outline' and text2 != text:
+                return fails + [Failure(f'extract[{form},{flags}]: a second extraction pass changes the result '
+                                        '(nothing is left to extract)', None)]
             if flags == 'outline':
-                # (not through ExtractTransformation: it crashes on the outlined routines, which have no CONTAINS section —
-                #  class extract-no-contains-crash)
-                from loki.transformations.extract import extract_internal_procedures
-                for r in top_routines(sf, form):
-                    if r.contains is not None:
-                        new = extract_internal_procedures(r)
-                        (sf['m'].contains if form == 'mod' else sf.ir).append(new)
                 probs = structural_problems(sf, form)
                 if probs:
                     return fails + [Failure(f'extract[{form},outline then extract]: inconsistent result: '
